@@ -308,6 +308,9 @@ type c01Params struct {
 	quick       bool
 	spec        string // fixed spec ("" = generate from the family)
 	fixedQuorum []ID   // with a fixed spec: the signing quorum (nil = by qmode)
+	sequence    bool   // several sessions on the same key objects (c01_seq.go); the quorums come from the plan
+	maxSessions int    // with sequence: cap on the number of sessions (0 = all planned)
+	bigN        int    // > 0: a large committee of that many holders (c01BigSpec)
 }
 
 func c01CommonParams(row c01Row, nMin, nMax int, quick bool) c01Params {
@@ -347,6 +350,9 @@ func c01Setup[P curves.Point[P, F, S], F algebra.FiniteFieldElement[F], S algebr
 	r := NewRng(seed, stream*64+4)
 	for attempt := range 4 {
 		spec := p.spec
+		if spec == "" && p.bigN > 0 {
+			spec = c01BigSpec(r, p.family, p.bigN)
+		}
 		if spec == "" {
 			n := p.nMin + r.IntN(p.nMax-p.nMin+1)
 			if p.qmode == "rand" {
@@ -369,6 +375,9 @@ func c01Setup[P curves.Point[P, F, S], F algebra.FiniteFieldElement[F], S algebr
 				return nil, nil, r
 			}
 			continue
+		}
+		if p.sequence { // the session plan chooses the quorums (and never enumerates subsets)
+			return key, accessIDs(key.ac)[:2], r
 		}
 		q := c01QuorumKind(r, key.ac, p.qmode)
 		if p.fixedQuorum != nil {
@@ -396,9 +405,15 @@ func (p c01Params) countRun(o *jobOut, proto string, ac accessstructures.Monoton
 	o.Count("family." + fam)
 	o.Count("family-x-proto." + fam + "." + proto)
 	o.Count(fmt.Sprintf("quorum.size=%d", len(q)))
-	minimal := false
-	for _, m := range minimalQualifiedSets(ac) {
-		minimal = minimal || slices.Equal(sortedIDs(m), sortedIDs(q))
+	minimal := ac.IsQualified(q...) // minimal: no member can be dropped
+	for i := range q {
+		t := slices.Delete(slices.Clone(q), i, i+1)
+		if len(t) > 0 && ac.IsQualified(t...) {
+			minimal = false
+		}
+	}
+	if n := len(accessIDs(ac)); n > 64 {
+		o.Count("committee.more-than-64-holders")
 	}
 	switch {
 	case minimal && len(q) == len(accessIDs(ac)):
@@ -474,59 +489,65 @@ func c01ECDSA[P curves.Point[P, B, S], B algebra.PrimeFieldElement[B], S algebra
 	if key == nil {
 		return
 	}
-	tag += " spec=" + key.spec
-	suite, err := ecdsa.NewSuite(curve, c01Hashes[hname])
-	if err != nil {
-		o.Violation(c01Prop, "suite "+classify(err)+" "+tag)
-		return
-	}
-	ctxs := c01Contexts(o, seed, stream, q, p.realSession)
-	if ctxs == nil {
-		return
-	}
-	msg := c01Message(r)
-	rngs := partyRngs(seed, stream*64+30, q)
-	var res *ECDSAResult[P, B, S]
-	if p.runner {
-		res = runDKLs23Runner(variant, suite, key.shards, q, ctxs, msg, rngs)
-	} else {
-		res = runDKLs23(variant, suite, key.shards, q, ctxs, msg, rngs, nil)
-	}
-	tag += " quorum=" + idsStr(q)
-	if !res.Net.OK() || res.Sig == nil {
-		o.Violation(c01Prop, fmt.Sprintf("honest-signing-failed %s status=%s agg=%s %s", tag, res.Net.StatusStr(), res.AggStatus, res.Net.statusSummary()))
-		return
-	}
-	p.countRun(o, "dkls23-"+variant, key.ac, key.spec, key.keygen, q)
-	if res.SigAlt == nil || !res.Sig.Equal(res.SigAlt) {
-		o.Violation(c01Prop, "aggregators-disagree order=reverse "+tag)
-	}
-	pk, _ := ecdsa.NewPublicKey(res.PK)
-	// further aggregators: the same partial signatures in random orders
-	for k := range 2 {
-		ids := sortedKeys(res.Partials)
-		r.Shuffle(len(ids), func(i, j int) { ids[i], ids[j] = ids[j], ids[i] })
-		vr := safely(func() string {
-			ps := make([]*dkls23.PartialSignature[P, B, S], 0, len(ids))
-			for _, id := range ids {
-				ps = append(ps, res.Partials[id])
-			}
-			sig, err := dkls23.Aggregate(suite, pk, msg, ps...)
-			if err != nil {
-				return "aggregator-rejected-honest-partials class=" + classify(err)
-			}
-			if !sig.Equal(res.Sig) {
-				return "aggregators-disagree"
-			}
-			return "ok"
-		})
-		o.Count("agg.dkls23.order-shuffled")
-		if vr != "ok" {
-			o.Violation(c01Prop, fmt.Sprintf("%s order=shuffle%d:%s %s", vr, k, idsStr(ids), tag))
+	baseTag := tag + " spec=" + c01ShortSpec(key.spec)
+	c01Sessions(o, r, key, q, p, stream, g.name, func(q []ID, stream uint64, k int) {
+		tag := baseTag
+		if p.sequence {
+			tag += fmt.Sprintf(" session=%d", k)
 		}
-	}
-	c01ECDSAReport(o, g, suite, hname, "dkls23-"+variant, tag, res.PK, msg, res.Sig, pointMapStr(res.NoncePoints), pointMapStr(res.PkShares))
-	c01AddConv(o, g.name, key.ac, key.shards[q[0]], q)
+		suite, err := ecdsa.NewSuite(curve, c01Hashes[hname])
+		if err != nil {
+			o.Violation(c01Prop, "suite "+classify(err)+" "+tag)
+			return
+		}
+		ctxs := c01Contexts(o, seed, stream, q, p.realSession)
+		if ctxs == nil {
+			return
+		}
+		msg := c01Message(r)
+		rngs := partyRngs(seed, stream*64+30, q)
+		var res *ECDSAResult[P, B, S]
+		if p.runner {
+			res = runDKLs23Runner(variant, suite, key.shards, q, ctxs, msg, rngs)
+		} else {
+			res = runDKLs23(variant, suite, key.shards, q, ctxs, msg, rngs, nil)
+		}
+		tag += " quorum=" + idsStr(q)
+		if !res.Net.OK() || res.Sig == nil {
+			o.Violation(c01Prop, fmt.Sprintf("honest-signing-failed %s status=%s agg=%s %s", tag, res.Net.StatusStr(), res.AggStatus, res.Net.statusSummary()))
+			return
+		}
+		p.countRun(o, "dkls23-"+variant, key.ac, key.spec, key.keygen, q)
+		if res.SigAlt == nil || !res.Sig.Equal(res.SigAlt) {
+			o.Violation(c01Prop, "aggregators-disagree order=reverse "+tag)
+		}
+		pk, _ := ecdsa.NewPublicKey(res.PK)
+		// further aggregators: the same partial signatures in random orders
+		for k := range 2 {
+			ids := sortedKeys(res.Partials)
+			r.Shuffle(len(ids), func(i, j int) { ids[i], ids[j] = ids[j], ids[i] })
+			vr := safely(func() string {
+				ps := make([]*dkls23.PartialSignature[P, B, S], 0, len(ids))
+				for _, id := range ids {
+					ps = append(ps, res.Partials[id])
+				}
+				sig, err := dkls23.Aggregate(suite, pk, msg, ps...)
+				if err != nil {
+					return "aggregator-rejected-honest-partials class=" + classify(err)
+				}
+				if !sig.Equal(res.Sig) {
+					return "aggregators-disagree"
+				}
+				return "ok"
+			})
+			o.Count("agg.dkls23.order-shuffled")
+			if vr != "ok" {
+				o.Violation(c01Prop, fmt.Sprintf("%s order=shuffle%d:%s %s", vr, k, idsStr(ids), tag))
+			}
+		}
+		c01ECDSAReport(o, g, suite, hname, "dkls23-"+variant, tag, res.PK, msg, res.Sig, pointMapStr(res.NoncePoints), pointMapStr(res.PkShares))
+		c01AddConv(o, g.name, key.ac, key.shards[q[0]], q)
+	})
 }
 
 // c01ECDSAReport: library verifier, crypto/ecdsa, and the driver line.
@@ -622,73 +643,79 @@ func c01Lindell22[
 	if key == nil {
 		return
 	}
-	tag += " spec=" + key.spec
-	ctxs := c01Contexts(o, seed, stream, q, p.realSession)
-	if ctxs == nil {
-		return
-	}
-	msg, msgBytes := mkMsg(r)
-	rngs := partyRngs(seed, stream*64+30, q)
-	nic := c01Compilers[nicName]
-	var res *SchnorrResult[P, S]
-	if p.runner {
-		res = runLindell22Runner[SCH, VR, P, S, M, KG, SG, VF](mk, key.shards, q, ctxs, msg, rngs, NewRng(seed, stream*64+5), nic)
-	} else {
-		res = runLindell22[SCH, VR, P, S, M, KG, SG, VF](mk, key.shards, q, ctxs, msg, rngs, NewRng(seed, stream*64+5), nil, nic)
-	}
-	tag += " quorum=" + idsStr(q)
-	if !res.Net.OK() || res.Sig == nil {
-		o.Violation(c01Prop, fmt.Sprintf("honest-signing-failed %s status=%s agg=%s %s", tag, res.Net.StatusStr(), res.AggStatus, res.Net.statusSummary()))
-		return
-	}
-	proto := "lindell22-" + strings.SplitN(variant, ":", 2)[0]
-	p.countRun(o, proto, key.ac, key.spec, key.keygen, q)
-	o.Count("lindell22.nic=" + nicName)
-	if res.SigAlt == nil || !res.Sig.Equal(res.SigAlt) {
-		o.Violation(c01Prop, "aggregators-disagree second-plain-aggregator "+tag)
-	}
-	// every aggregation path over the same honest partial signatures: each must output a signature, and
-	// all outputs must be the same signature (canonical serialisation and in-memory value)
-	if len(res.Aggs) == 0 {
-		o.Violation(c01Prop, "no-aggregator-ran "+tag)
-	}
-	var ref *SchnorrAgg[P, S]
-	for i := range res.Aggs {
-		a := &res.Aggs[i]
-		o.Count("agg.lindell22." + a.Kind)
-		o.Count(fmt.Sprintf("agg.%s.%s", proto, a.Kind))
-		switch {
-		case a.Status != "ok" || a.Sig == nil:
-			o.Violation(c01Prop, fmt.Sprintf("aggregator-rejected-honest-partials proto=%s aggregator=%s class=%s party=%d %s", proto, a.Kind, a.Status, a.ID, tag))
-		case a.Bytes == nil:
-			o.Violation(c01Prop, fmt.Sprintf("signature-not-serialisable proto=%s aggregator=%s party=%d %s", proto, a.Kind, a.ID, tag))
-		case ref == nil:
-			ref = a
-			if !a.Sig.Equal(res.Sig) {
-				o.Violation(c01Prop, fmt.Sprintf("aggregators-disagree proto=%s aggregator=%s party=%d %s", proto, a.Kind, a.ID, tag))
-			}
-		case !slices.Equal(a.Bytes, ref.Bytes):
-			o.Violation(c01Prop, fmt.Sprintf("aggregators-disagree proto=%s aggregator=%s party=%d %s", proto, a.Kind, a.ID, tag))
-		case !a.Sig.Equal(ref.Sig):
-			// same serialisation, different in-memory value (e.g. the y parity of an x-only nonce point)
-			o.Violation(c01Prop, fmt.Sprintf("aggregators-disagree in-memory-only proto=%s aggregator=%s party=%d %s", proto, a.Kind, a.ID, tag))
+	baseTag := tag + " spec=" + c01ShortSpec(key.spec)
+	c01Sessions(o, r, key, q, p, stream, g.name, func(q []ID, stream uint64, k int) {
+		tag := baseTag
+		if p.sequence {
+			tag += fmt.Sprintf(" session=%d", k)
 		}
-	}
-	if !res.VerifyOK {
-		o.Violation(c01Prop, "library-verifier-rejects "+tag)
-	}
-	nonces := "-"
-	if len(res.NoncePoints) > 0 {
-		nonces = pointMapStr(res.NoncePoints)
-	}
-	var pRs []P
-	var pSs []S
-	for _, id := range sortedKeys(res.Partials) {
-		pRs = append(pRs, res.Partials[id].Sig.R)
-		pSs = append(pSs, res.Partials[id].Sig.S)
-	}
-	o.Emit(c01Prop, fmt.Sprintf("schnorr %s %s %s %s %s %s %s %s %s %s", variant, g.name, pointStr(res.PK), hexBytes(msgBytes), scalarHex(res.Sig.E), pointStr(res.Sig.R), scalarHex(res.Sig.S), nonces, pointsStr(pRs), scalarsHex(pSs)), "ok")
-	c01AddConv(o, g.name, key.ac, key.shards[q[0]], q)
+		ctxs := c01Contexts(o, seed, stream, q, p.realSession)
+		if ctxs == nil {
+			return
+		}
+		msg, msgBytes := mkMsg(r)
+		rngs := partyRngs(seed, stream*64+30, q)
+		nic := c01Compilers[nicName]
+		var res *SchnorrResult[P, S]
+		if p.runner {
+			res = runLindell22Runner[SCH, VR, P, S, M, KG, SG, VF](mk, key.shards, q, ctxs, msg, rngs, NewRng(seed, stream*64+5), nic)
+		} else {
+			res = runLindell22[SCH, VR, P, S, M, KG, SG, VF](mk, key.shards, q, ctxs, msg, rngs, NewRng(seed, stream*64+5), nil, nic)
+		}
+		tag += " quorum=" + idsStr(q)
+		if !res.Net.OK() || res.Sig == nil {
+			o.Violation(c01Prop, fmt.Sprintf("honest-signing-failed %s status=%s agg=%s %s", tag, res.Net.StatusStr(), res.AggStatus, res.Net.statusSummary()))
+			return
+		}
+		proto := "lindell22-" + strings.SplitN(variant, ":", 2)[0]
+		p.countRun(o, proto, key.ac, key.spec, key.keygen, q)
+		o.Count("lindell22.nic=" + nicName)
+		if res.SigAlt == nil || !res.Sig.Equal(res.SigAlt) {
+			o.Violation(c01Prop, "aggregators-disagree second-plain-aggregator "+tag)
+		}
+		// every aggregation path over the same honest partial signatures: each must output a signature, and
+		// all outputs must be the same signature (canonical serialisation and in-memory value)
+		if len(res.Aggs) == 0 {
+			o.Violation(c01Prop, "no-aggregator-ran "+tag)
+		}
+		var ref *SchnorrAgg[P, S]
+		for i := range res.Aggs {
+			a := &res.Aggs[i]
+			o.Count("agg.lindell22." + a.Kind)
+			o.Count(fmt.Sprintf("agg.%s.%s", proto, a.Kind))
+			switch {
+			case a.Status != "ok" || a.Sig == nil:
+				o.Violation(c01Prop, fmt.Sprintf("aggregator-rejected-honest-partials proto=%s aggregator=%s class=%s party=%d %s", proto, a.Kind, a.Status, a.ID, tag))
+			case a.Bytes == nil:
+				o.Violation(c01Prop, fmt.Sprintf("signature-not-serialisable proto=%s aggregator=%s party=%d %s", proto, a.Kind, a.ID, tag))
+			case ref == nil:
+				ref = a
+				if !a.Sig.Equal(res.Sig) {
+					o.Violation(c01Prop, fmt.Sprintf("aggregators-disagree proto=%s aggregator=%s party=%d %s", proto, a.Kind, a.ID, tag))
+				}
+			case !slices.Equal(a.Bytes, ref.Bytes):
+				o.Violation(c01Prop, fmt.Sprintf("aggregators-disagree proto=%s aggregator=%s party=%d %s", proto, a.Kind, a.ID, tag))
+			case !a.Sig.Equal(ref.Sig):
+				// same serialisation, different in-memory value (e.g. the y parity of an x-only nonce point)
+				o.Violation(c01Prop, fmt.Sprintf("aggregators-disagree in-memory-only proto=%s aggregator=%s party=%d %s", proto, a.Kind, a.ID, tag))
+			}
+		}
+		if !res.VerifyOK {
+			o.Violation(c01Prop, "library-verifier-rejects "+tag)
+		}
+		nonces := "-"
+		if len(res.NoncePoints) > 0 {
+			nonces = pointMapStr(res.NoncePoints)
+		}
+		var pRs []P
+		var pSs []S
+		for _, id := range sortedKeys(res.Partials) {
+			pRs = append(pRs, res.Partials[id].Sig.R)
+			pSs = append(pSs, res.Partials[id].Sig.S)
+		}
+		o.Emit(c01Prop, fmt.Sprintf("schnorr %s %s %s %s %s %s %s %s %s %s", variant, g.name, pointStr(res.PK), hexBytes(msgBytes), scalarHex(res.Sig.E), pointStr(res.Sig.R), scalarHex(res.Sig.S), nonces, pointsStr(pRs), scalarsHex(pSs)), "ok")
+		c01AddConv(o, g.name, key.ac, key.shards[q[0]], q)
+	})
 }
 
 func c01BytesMsg(r *Rng) ([]byte, []byte) { m := c01Message(r); return m, m }
@@ -830,117 +857,124 @@ func c01BLS[PK curves.PairingFriendlyPoint[PK, PKF, SG, SGF, gt, bsc], PKF algeb
 	if key == nil {
 		return
 	}
-	tag += " spec=" + key.spec + " quorum=" + idsStr(q)
-	msg := c01Message(r)
-	ctxs := dealerContexts(slices.Clone(q), NewRng(seed, stream*64+3))
-	res := kit.run(key.shards, q, ctxs, msg, alg, nil)
-	if !res.Net.OK() || res.Sig == nil {
-		o.Violation(c01Prop, fmt.Sprintf("honest-signing-failed %s status=%s agg=%s", tag, res.Net.StatusStr(), res.AggStatus))
-		return
-	}
-	proto := "boldyreva-" + map[bls.Variant]string{bls.ShortKey: "short", bls.LongKey: "long"}[kit.variant] + "-" + algName
-	p.countRun(o, proto, key.ac, key.spec, key.keygen, q)
-	if res.SigAlt == nil || !res.Sig.Equal(res.SigAlt) {
-		o.Violation(c01Prop, "aggregators-disagree second-aggregator "+tag)
-	}
-	// an aggregator per quorum member, built from that member's own public material
-	var in ds.Map[ID, *boldyreva02.PartialSignature[SG, SGF, PK, PKF, gt, bsc]] = hashmap.NewComparableFromNativeLike(res.Partials).Freeze()
-	aggIDs := q
-	if p.quick && len(q) > 2 { // quick tier: the first and the last quorum member
-		aggIDs = []ID{q[0], q[len(q)-1]}
-	}
-	for _, id := range aggIDs {
-		vr := safely(func() string {
-			sh, err := kit.newShard(key.shards[id])
-			if err != nil {
-				return "shard-" + classify(err)
+	baseTag := tag + " spec=" + c01ShortSpec(key.spec)
+	c01Sessions(o, r, key, q, p, stream, g.name, func(q []ID, stream uint64, k int) {
+		tag := baseTag
+		if p.sequence {
+			tag += fmt.Sprintf(" session=%d", k)
+		}
+		tag += " quorum=" + idsStr(q)
+		msg := c01Message(r)
+		ctxs := dealerContexts(slices.Clone(q), NewRng(seed, stream*64+3))
+		res := kit.run(key.shards, q, ctxs, msg, alg, nil)
+		if !res.Net.OK() || res.Sig == nil {
+			o.Violation(c01Prop, fmt.Sprintf("honest-signing-failed %s status=%s agg=%s", tag, res.Net.StatusStr(), res.AggStatus))
+			return
+		}
+		proto := "boldyreva-" + map[bls.Variant]string{bls.ShortKey: "short", bls.LongKey: "long"}[kit.variant] + "-" + algName
+		p.countRun(o, proto, key.ac, key.spec, key.keygen, q)
+		if res.SigAlt == nil || !res.Sig.Equal(res.SigAlt) {
+			o.Violation(c01Prop, "aggregators-disagree second-aggregator "+tag)
+		}
+		// an aggregator per quorum member, built from that member's own public material
+		var in ds.Map[ID, *boldyreva02.PartialSignature[SG, SGF, PK, PKF, gt, bsc]] = hashmap.NewComparableFromNativeLike(res.Partials).Freeze()
+		aggIDs := q
+		if p.quick && len(q) > 2 { // quick tier: the first and the last quorum member
+			aggIDs = []ID{q[0], q[len(q)-1]}
+		}
+		for _, id := range aggIDs {
+			vr := safely(func() string {
+				sh, err := kit.newShard(key.shards[id])
+				if err != nil {
+					return "shard-" + classify(err)
+				}
+				agg, err := kit.newAgg(sh.PublicKeyMaterial(), alg)
+				if err != nil {
+					return "new-" + classify(err)
+				}
+				sig, err := agg.Aggregate(in, msg)
+				if err != nil {
+					return "aggregator-rejected-honest-partials class=" + classify(err)
+				}
+				if !sig.Equal(res.Sig) {
+					return "aggregators-disagree"
+				}
+				return "ok"
+			})
+			o.Count("agg.boldyreva.per-party")
+			if vr != "ok" {
+				o.Violation(c01Prop, fmt.Sprintf("%s aggregator=party-%d %s", vr, id, tag))
 			}
-			agg, err := kit.newAgg(sh.PublicKeyMaterial(), alg)
+		}
+		// the library's single-party verifier under the group public key
+		scheme, err := kit.newScheme(alg)
+		if err != nil {
+			o.Violation(c01Prop, "bls-scheme "+classify(err)+" "+tag)
+			return
+		}
+		pk, err := bls.NewPublicKey(res.PK)
+		if err != nil {
+			o.Violation(c01Prop, "bls-public-key "+classify(err)+" "+tag)
+			return
+		}
+		if vr := safely(func() string {
+			vf, err := scheme.Verifier()
 			if err != nil {
-				return "new-" + classify(err)
+				return "verifier-" + classify(err)
 			}
-			sig, err := agg.Aggregate(in, msg)
-			if err != nil {
-				return "aggregator-rejected-honest-partials class=" + classify(err)
-			}
-			if !sig.Equal(res.Sig) {
-				return "aggregators-disagree"
+			if err := vf.Verify(res.Sig, pk, msg); err != nil {
+				return "library-verifier-rejects"
 			}
 			return "ok"
-		})
-		o.Count("agg.boldyreva.per-party")
-		if vr != "ok" {
-			o.Violation(c01Prop, fmt.Sprintf("%s aggregator=party-%d %s", vr, id, tag))
+		}); vr != "ok" {
+			o.Violation(c01Prop, vr+" "+tag)
 		}
-	}
-	// the library's single-party verifier under the group public key
-	scheme, err := kit.newScheme(alg)
-	if err != nil {
-		o.Violation(c01Prop, "bls-scheme "+classify(err)+" "+tag)
-		return
-	}
-	pk, err := bls.NewPublicKey(res.PK)
-	if err != nil {
-		o.Violation(c01Prop, "bls-public-key "+classify(err)+" "+tag)
-		return
-	}
-	if vr := safely(func() string {
-		vf, err := scheme.Verifier()
+		// independent line: the secret reconstructed from all shards, the hashed message, the signature
+		fs, err := feldman.NewScheme(g.group, key.ac)
 		if err != nil {
-			return "verifier-" + classify(err)
-		}
-		if err := vf.Verify(res.Sig, pk, msg); err != nil {
-			return "library-verifier-rejects"
-		}
-		return "ok"
-	}); vr != "ok" {
-		o.Violation(c01Prop, vr+" "+tag)
-	}
-	// independent line: the secret reconstructed from all shards, the hashed message, the signature
-	fs, err := feldman.NewScheme(g.group, key.ac)
-	if err != nil {
-		o.Violation(c01Prop, "feldman.NewScheme "+classify(err)+" "+tag)
-		return
-	}
-	var shs []*kw.Share[bsc]
-	for _, id := range accessIDs(key.ac) {
-		shs = append(shs, key.shards[id].Share())
-	}
-	sec, err := fs.Reconstruct(shs...)
-	if err != nil {
-		o.Violation(c01Prop, "reconstruct-from-all-shards "+classify(err)+" "+tag)
-		return
-	}
-	sigGroup := scheme.SignatureSubGroup()
-	dst, err := scheme.CipherSuite().GetDst(alg, kit.variant)
-	if err != nil {
-		o.Violation(c01Prop, "bls-dst "+classify(err)+" "+tag)
-		return
-	}
-	internal := msg
-	if alg == bls.MessageAugmentation {
-		internal = slices.Concat(res.PK.Bytes(), msg)
-	}
-	hm, err := sigGroup.HashWithDst(dst, internal)
-	if err != nil {
-		o.Violation(c01Prop, "bls-hash-to-curve "+classify(err)+" "+tag)
-		return
-	}
-	hpS, popS := "-", "-"
-	if alg == bls.POP {
-		if res.Sig.Pop() == nil {
-			o.Violation(c01Prop, "pop-missing "+tag)
+			o.Violation(c01Prop, "feldman.NewScheme "+classify(err)+" "+tag)
 			return
 		}
-		hp, err := sigGroup.HashWithDst(scheme.CipherSuite().GetPopDst(kit.variant), res.PK.Bytes())
+		var shs []*kw.Share[bsc]
+		for _, id := range accessIDs(key.ac) {
+			shs = append(shs, key.shards[id].Share())
+		}
+		sec, err := fs.Reconstruct(shs...)
 		if err != nil {
-			o.Violation(c01Prop, "bls-hash-to-curve-pop "+classify(err)+" "+tag)
+			o.Violation(c01Prop, "reconstruct-from-all-shards "+classify(err)+" "+tag)
 			return
 		}
-		hpS, popS = kit.sigStr(hp), kit.sigStr(res.Sig.Pop().Value())
-	}
-	o.Emit(c01Prop, fmt.Sprintf("bls %s %s %s %s %s %s %s %s %s", kit.keyCurve, kit.sigCurve, algName, scalarHex(sec.Value()), pointStr(res.PK), kit.sigStr(hm), kit.sigStr(res.Sig.Value()), hpS, popS), "ok")
-	c01AddConv(o, g.name, key.ac, key.shards[q[0]], q)
+		sigGroup := scheme.SignatureSubGroup()
+		dst, err := scheme.CipherSuite().GetDst(alg, kit.variant)
+		if err != nil {
+			o.Violation(c01Prop, "bls-dst "+classify(err)+" "+tag)
+			return
+		}
+		internal := msg
+		if alg == bls.MessageAugmentation {
+			internal = slices.Concat(res.PK.Bytes(), msg)
+		}
+		hm, err := sigGroup.HashWithDst(dst, internal)
+		if err != nil {
+			o.Violation(c01Prop, "bls-hash-to-curve "+classify(err)+" "+tag)
+			return
+		}
+		hpS, popS := "-", "-"
+		if alg == bls.POP {
+			if res.Sig.Pop() == nil {
+				o.Violation(c01Prop, "pop-missing "+tag)
+				return
+			}
+			hp, err := sigGroup.HashWithDst(scheme.CipherSuite().GetPopDst(kit.variant), res.PK.Bytes())
+			if err != nil {
+				o.Violation(c01Prop, "bls-hash-to-curve-pop "+classify(err)+" "+tag)
+				return
+			}
+			hpS, popS = kit.sigStr(hp), kit.sigStr(res.Sig.Pop().Value())
+		}
+		o.Emit(c01Prop, fmt.Sprintf("bls %s %s %s %s %s %s %s %s %s", kit.keyCurve, kit.sigCurve, algName, scalarHex(sec.Value()), pointStr(res.PK), kit.sigStr(hm), kit.sigStr(res.Sig.Value()), hpS, popS), "ok")
+		c01AddConv(o, g.name, key.ac, key.shards[q[0]], q)
+	})
 }
 
 // ---------------------------------------------------------------------------------------------
@@ -1189,6 +1223,57 @@ func runC01(c *Ctx) {
 			add(func(o *jobOut, s uint64) { c01BLS(o, seed, s, c01BLSShortKit(), "pop", p) })
 		}
 	}
+	// large committees (more than 64 MSP rows, trusted dealer) and object reuse: several sessions in
+	// sequence on the same shard / MSP objects (c01_seq.go)
+	group = "sequence"
+	bigFams := []string{"th", "hier", "cnf", "bool"}
+	nBig, nSmall := 3, 3
+	if c.Thorough() {
+		nBig, nSmall = 12, 10
+	}
+	for i := range nBig {
+		fam := bigFams[(i+int(seed%4+4))%4]
+		p := c01Params{family: fam, keygen: "dealer", quick: quick, sequence: true, bigN: 65 + pick.IntN(66), runner: pick.IntN(2) == 0, qmode: "min"}
+		if quick {
+			p.maxSessions = 4 // A, B (differs in a high row), A again, a non-minimal superset
+		}
+		neg, le := pick.IntN(2) == 0, pick.IntN(2) == 0
+		hname := c01DimHash.vals[pick.IntN(4)]
+		switch i % 4 {
+		case 0:
+			add(func(o *jobOut, s uint64) { c01BIP340(o, seed, s, "fiatshamir", p) })
+		case 1:
+			add(func(o *jobOut, s uint64) { c01VanillaOn(o, seed, s, "k256", hname, neg, le, false, "fiatshamir", p) })
+		case 2:
+			p.maxSessions = 3
+			add(func(o *jobOut, s uint64) { c01BLS(o, seed, s, c01BLSShortKit(), "basic", p) })
+		default: // thorough only (nBig = 3 in quick)
+			p.maxSessions = 3
+			add(func(o *jobOut, s uint64) { c01ECDSA(o, seed, s, k256g, cK256, "softspoken", hname, p) })
+		}
+	}
+	for i := range nSmall {
+		fam := accessFamilies[(i+int(seed%5+5))%5]
+		if fam == "un" { // a single quorum: the same quorum several times is all there is
+			fam = "th"
+		}
+		p := c01Params{family: fam, keygen: c01DimKeygen.vals[pick.IntN(3)], nMin: 4, nMax: 5, quick: quick, sequence: true,
+			runner: pick.IntN(2) == 0, realSession: pick.IntN(2) == 0, qmode: "min"}
+		neg := pick.IntN(2) == 0
+		switch i % 3 {
+		case 0:
+			add(func(o *jobOut, s uint64) {
+				c01VanillaOn(o, seed, s, "ed25519", "sha512", neg, false, false, "fiatshamir", p)
+			})
+		case 1:
+			add(func(o *jobOut, s uint64) { c01BIP340(o, seed, s, "randfischlin", p) })
+		default:
+			p.maxSessions = 2
+			p.nMax = 4
+			add(func(o *jobOut, s uint64) { c01ECDSA(o, seed, s, k256g, cK256, "softspoken", "sha256", p) })
+		}
+	}
+
 	// thorough: every qualified quorum (≥ 2 members) of one 4-holder structure per family
 	if c.Thorough() {
 		group = "all-quorums"
